@@ -99,6 +99,15 @@ def gen_inputs(tier, rng):
         if rng.random() < 0.5 and len(hist) > 1: hist[1] = list(hist[0])
         b["hist"] = hist
         yield b
+    # directed: ONE regularized linear object (the only configuration in which curvature_reg_matrix adds the
+    # regularization matrix IN PLACE into the array curvature_matrix returned) with the curvature matrix preloaded
+    for i in range(40 if big else 8):
+        b = gen_base(rng, "m")
+        b["objs"][0]["coef"] = rng.choice(["1", "2", "1/2"])
+        b["op"] = "hist"; b["use_w_tilde"] = bool(i % 2); b["pre_use_wt"] = None
+        b["slots"] = ["curvature_matrix"] + [s for s in SLOTS if s != "curvature_matrix" and rng.random() < 0.3]
+        b["hist"] = [list(STD), list(STD)] if i % 4 < 2 else [["QCrm", "QCurv", "QRec"], ["QCrm"], ["QCurv", "QCrm", "QLdc"]]
+        yield b
     for i in range(28 if big else 5):
         b = gen_base(rng, ["mfmf", "mf", "mm", "fm", "m", "mff", "fmf"][i % 7])
         b["op"] = "subsets"; b["k"] = 3 if big else 2
